@@ -227,6 +227,13 @@ def readonly_literal_table(module_tree, class_node, name, literal=True):
         if tgt is None:
             continue
         par = getattr(tgt, '_parent', None)
+        if isinstance(tgt, ast.Name) and isinstance(tgt.ctx, ast.Store) \
+                and isinstance(par, ast.Assign) and isinstance(
+                    getattr(par, '_parent', None), ast.ClassDef) \
+                and par._parent is not class_node:
+            # the same name bound at the top of another class is that
+            # class's own constant
+            continue
         if isinstance(tgt.ctx, (ast.Store, ast.Del)) and node is not \
                 binds[0].targets[0]:
             return False
